@@ -136,6 +136,15 @@ pub fn run(cfg: &Config) -> i32 {
 			if a != mv || b != mv || back != rev {
 				fail(&mut rep, "iteration", format!("set {:?}: forward {:?} / {:?}, backward {:?}", mv, a, b, back));
 			}
+			// every other way of consuming the iterator (nth, nth_back, skip, step_by, rev, count, last, fold)
+			match crate::monitor::check_iter(&format!("iter() of {:?}", mv), &|| s.iter(), &mv) {
+				Ok(n) => rep.evaluations += n,
+				Err(m) => fail(&mut rep, "iterator-protocol", m),
+			}
+			match crate::monitor::check_iter_back(&format!("iter() of {:?}", mv), &|| s.iter(), &mv) {
+				Ok(n) => rep.evaluations += n,
+				Err(m) => fail(&mut rep, "iterator-protocol", m),
+			}
 			// every interleaving of next / next_back of length 0..=7
 			for len in 0..=7usize {
 				for pat in 0..(1usize << len) {
